@@ -38,7 +38,7 @@ package storethehash
 
 //@ func (bs *HashedBlockstore) DeleteBlock(ctx context.Context, c cid.Cid) (err error)  property C15
 //@   requires SI(bs.store)
-//@   modifies bs.store.index.$Ein, bs.store.freelist.$F, bs.store.flushNotice, chan(bs.store.flushNotice), ctx.$done
+//@   modifies bs.store.index.$Ein, bs.store.freelist.$F, bs.store.flushNotice, chan(bs.store.flushNotice), ctx.$done, bs.store.index.$pending, bs.store.freelist.$pending
 //@   ensures @cancelled old(ctx.$done) ==> err != nil && untouched(bs.store)
 //@   ensures @deleted err == nil ==> !has(bs.store, K(c))
 //@   ensures @others forall k Bytes :: k != K(c) ==> has(bs.store, k) == old(has(bs.store, k)) && (has(bs.store, k) ==> val(bs.store, k) == old(val(bs.store, k)))
@@ -52,7 +52,7 @@ package storethehash
 
 //@ func (bs *HashedBlockstore) Get(ctx context.Context, c cid.Cid) (blk blocks.Block, err error)  property C15
 //@   requires SI(bs.store)
-//@   modifies bs.store.index.$Ein, ctx.$done
+//@   modifies bs.store.index.$Ein, ctx.$done, bs.store.index.$pending
 //@   ensures @cancelled old(ctx.$done) ==> err != nil && untouched(bs.store)
 //@   ensures @found err == nil ==> old(has(bs.store, K(c))) && blockdata(blk.$pay) == old(val(bs.store, K(c))) && blockcid(blk.$pay) == c.str
 //@   ghost var gfound bool = true
@@ -85,7 +85,7 @@ package storethehash
 //@   requires wfkey(cidhash(blockcid(blk.$pay)))
 //@   requires len(cidhash(blockcid(blk.$pay))) + len(blockdata(blk.$pay)) < (1 << 31)
 //@   requires bs.store.err != types.ErrKeyExists
-//@   modifies bs.store.index.$Ein, bs.store.index.$Eblk, bs.store.index.Primary.$Rin, bs.store.index.Primary.$Rkey, bs.store.index.Primary.$Rval, bs.store.index.Primary.$Rused, bs.store.freelist.$F, bs.store.flushNotice, chan(bs.store.flushNotice), ctx.$done
+//@   modifies bs.store.index.$Ein, bs.store.index.$Eblk, bs.store.index.Primary.$Rin, bs.store.index.Primary.$Rkey, bs.store.index.Primary.$Rval, bs.store.index.Primary.$Rused, bs.store.freelist.$F, bs.store.flushNotice, chan(bs.store.flushNotice), ctx.$done, bs.store.index.$pending, bs.store.index.Primary.$pending, bs.store.freelist.$pending
 //@   ensures @cancelled old(ctx.$done) ==> err != nil && untouched(bs.store)
 //@   ghost var gexists bool = false
 //@   ghost at after call store.Store.Put#0: gexists = ($r0 == types.ErrKeyExists)
@@ -100,7 +100,7 @@ package storethehash
 //@   requires SI(bs.store)
 //@   requires forall j int :: 0 <= j && j < len(blks) ==> wfkey(cidhash(blockcid(blks[j].$pay))) && len(cidhash(blockcid(blks[j].$pay))) + len(blockdata(blks[j].$pay)) < (1 << 31)
 //@   requires bs.store.err != types.ErrKeyExists
-//@   modifies bs.store.index.$Ein, bs.store.index.$Eblk, bs.store.index.Primary.$Rin, bs.store.index.Primary.$Rkey, bs.store.index.Primary.$Rval, bs.store.index.Primary.$Rused, bs.store.freelist.$F, bs.store.flushNotice, chan(bs.store.flushNotice), ctx.$done
+//@   modifies bs.store.index.$Ein, bs.store.index.$Eblk, bs.store.index.Primary.$Rin, bs.store.index.Primary.$Rkey, bs.store.index.Primary.$Rval, bs.store.index.Primary.$Rused, bs.store.freelist.$F, bs.store.flushNotice, chan(bs.store.flushNotice), ctx.$done, bs.store.index.$pending, bs.store.index.Primary.$pending, bs.store.freelist.$pending
 //@   ensures @cancelled old(ctx.$done) ==> err != nil && untouched(bs.store)
 //@   ensures @all-stored err == nil ==> forall j int :: 0 <= j && j < len(blks) ==> has(bs.store, BKJ(j))
 //@   ensures @others forall k Bytes :: (forall j int :: 0 <= j && j < len(blks) ==> k != BKJ(j)) ==> has(bs.store, k) == old(has(bs.store, k)) && (has(bs.store, k) ==> val(bs.store, k) == old(val(bs.store, k)))
